@@ -8,7 +8,7 @@ def _hook_commits():
     except Exception:
         return []
 
-CLAIMED_IDS = ['C01', 'C02', 'C03', 'C04', 'C05', 'C06', 'C07', 'C08', 'C09', 'C10', 'C12', 'C13', 'C14', 'C15', 'C16']
+CLAIMED_IDS = ['C01', 'C02', 'C03', 'C04', 'C05', 'C06', 'C07', 'C08', 'C09', 'C10', 'C11', 'C12', 'C13', 'C14', 'C15', 'C16']
 
 HOOKS = {
     'guard': 'cargo feature `verif` (cfg(feature = "verif"))',
@@ -72,13 +72,16 @@ CLAIMED = {
     'C14': {'engine': 'engine-a-kani', 'design_ref': 'DESIGN.md section 4 C14',
             'text': 'Kani/CBMC: a Bloom filter built from two keys (lengths 0-5, symbolic bytes, bits_per_key in {1, 5, 9, 10, 43, 64}) answers true for both, also when read by a policy configured with another bits_per_key (O14.1)',
             'note': 'bounded model checking of the compiled BloomFilterPolicy; key counts, key lengths and bits_per_key are harness constants; alloc::fmt::format stubbed; the filter-block index mapping (which filter covers which data block) is not covered by this check', 'technique': 'Kani/CBMC bounded model checking of the compiled code, concrete-playback replay of counterexamples'},
+    'C11': {'engine': 'engine-b-mirse', 'design_ref': 'DESIGN.md section 4 C11',
+            'text': 'DB::remove_obsolete_files deletes exactly the WALs older than the version set\'s current WAL (except the one being compacted), tables / temp files neither live nor in use, manifests older than the current one, nothing after a background error, and only inside the unlocked section (O11.1, all numbers symbolic); VersionSet::get_live_files covers every level of every live version (O3.3)',
+            'note': B_NOTE + '; directory contents are abstract listings (1-2 files per directory); reader / deletion interleavings and crash images are not explored', 'technique': TECH},
     'C07': {'engine': 'engine-b-mirse', 'design_ref': 'DESIGN.md section 4 C07',
             'text': 'solver-decided obligations on compaction input selection: hull of several files (O7.1, known finding D4), overlapping inputs incl. level-0 range expansion and its termination (O7.2), boundary files (O7.3), overlap test (O7.4a), base-level test for tombstones (O7.4b), memtable output level (O7.4c)',
             'note': B_NOTE, 'technique': 'symbolic execution of rustc MIR + z3 (SMT), cvc5 cross-check, native replay of counterexamples'},
 }
 
 _NOT_YET = 'obligations for this property are designed (DESIGN.md section 4) but not yet registered in this commit'
-NOT_APPLICABLE = {pid: _NOT_YET for pid in ['C11']}
+NOT_APPLICABLE = {pid: _NOT_YET for pid in []}
 NOT_APPLICABLE['C17'] = 'the mechanism is flock(2) through the fs2 FFI on a real file descriptor plus racing threads; neither engine has a model of flock or of threads, and a contract "lock_file returns anything" decides nothing'
 
 NOTES = 'See DESIGN.md. Exit codes of ./check: 0 held (KNOWN-FINDING lines for recorded defects), 1 VIOLATION, 2 inconclusive (tool limit or non-reproducing counterexample; never reported as held).'
